@@ -53,10 +53,11 @@ type c21State struct {
 }
 
 type c21Case struct {
-	st     c21State
-	src    string // the `${…}` source
-	quoted bool
+	st      c21State
+	src     string // the `${…}` source
+	quoted  bool
 	nounset bool
+	ast     *syntax.ParamExp // malformed stream: a node built directly, not parsed
 }
 
 func c21Flags(f string) string {
@@ -378,8 +379,17 @@ func c21Parse(src string, quoted bool) (*syntax.Word, *c21PE, string) {
 	} else {
 		pe, _ = w.Parts[0].(*syntax.ParamExp)
 	}
-	if pe == nil || pe.Param == nil || pe.Width || pe.IsSet || pe.NestedParam != nil || len(pe.Modifiers) != 0 || pe.Flags != nil {
+	if pe == nil {
 		return nil, nil, "parse-shape"
+	}
+	d, perr := c21Decode(pe, src)
+	return w, d, perr
+}
+
+// c21Decode reads the fields of a ParamExp node into the form the model receives.
+func c21Decode(pe *syntax.ParamExp, src string) (*c21PE, string) {
+	if pe.Param == nil || pe.Width || pe.IsSet || pe.NestedParam != nil || len(pe.Modifiers) != 0 || pe.Flags != nil {
+		return nil, "parse-shape"
 	}
 	d := &c21PE{name: pe.Param.Value, idxKind: '-', excl: pe.Excl, length: pe.Length, kind: 'N', anchor: 'n'}
 	switch pe.Names {
@@ -397,12 +407,12 @@ func c21Parse(src string, quoted bool) (*syntax.Word, *c21PE, string) {
 			case l != "":
 				d.idxKind, d.idxText = 'w', l
 			default:
-				return nil, nil, "index-shape"
+				return nil, "index-shape"
 			}
 		} else {
 			_, t, ok := c21Arith(pe.Index)
 			if !ok {
-				return nil, nil, "index-shape"
+				return nil, "index-shape"
 			}
 			d.idxKind, d.idxText = 'e', t
 		}
@@ -414,29 +424,29 @@ func c21Parse(src string, quoted bool) (*syntax.Word, *c21PE, string) {
 		if pe.Slice.Offset != nil {
 			n, _, ok := c21Arith(pe.Slice.Offset)
 			if !ok {
-				return nil, nil, "slice-shape"
+				return nil, "slice-shape"
 			}
 			d.hasOff, d.off = true, n
 		}
 		if pe.Slice.Length != nil {
 			n, _, ok := c21Arith(pe.Slice.Length)
 			if !ok {
-				return nil, nil, "slice-shape"
+				return nil, "slice-shape"
 			}
 			d.hasLen, d.ln = true, n
 		}
 		if pe.Repl != nil || pe.Exp != nil {
-			return nil, nil, "parse-shape"
+			return nil, "parse-shape"
 		}
 	case pe.Repl != nil:
 		d.kind = 'R'
 		d.all = pe.Repl.All
 		var err error
 		if d.orig, err = expand.Pattern(cfg0, pe.Repl.Orig); err != nil {
-			return nil, nil, "arg-error"
+			return nil, "arg-error"
 		}
 		if d.with, err = expand.Literal(cfg0, pe.Repl.With); err != nil {
-			return nil, nil, "arg-error"
+			return nil, "arg-error"
 		}
 		if pe.Repl.Orig != nil && len(pe.Repl.Orig.Parts) > 0 {
 			if l, ok := pe.Repl.Orig.Parts[0].(*syntax.Lit); ok {
@@ -456,22 +466,22 @@ func c21Parse(src string, quoted bool) (*syntax.Word, *c21PE, string) {
 			d.origSrcSlash = strings.HasPrefix(rest, "/")
 		}
 		if pe.Exp != nil {
-			return nil, nil, "parse-shape"
+			return nil, "parse-shape"
 		}
 	case pe.Exp != nil:
 		d.kind = 'X'
 		name, ok := c21OpNames[pe.Exp.Op]
 		if !ok {
-			return nil, nil, "op-shape"
+			return nil, "op-shape"
 		}
 		d.op = name
 		var err error
 		if d.arg, err = expand.Literal(cfg0, pe.Exp.Word); err != nil {
-			return nil, nil, "arg-error"
+			return nil, "arg-error"
 		}
 		d.argQuoted = c21WordQuoted(pe.Exp.Word)
 	}
-	return w, d, ""
+	return d, ""
 }
 
 // ---------------------------------------------------------------------------------------------
@@ -1121,6 +1131,83 @@ func c21GenForm(r *Rand, st c21State) string {
 	return "${" + param + op + r.Pick(c21Words) + "}"
 }
 
+func c21LitWord(s string) *syntax.Word {
+	return &syntax.Word{Parts: []syntax.WordPart{&syntax.Lit{Value: s}}}
+}
+
+// c21GenAst: the malformed stream — ParamExp nodes no parser produces (flag combinations such as
+// Length with an operator, Excl with Names and an index) over variables whose representation breaks
+// the invariants (Indexes longer/shorter than List or unsorted, nil lists).
+func c21GenAst(r *Rand) c21Case {
+	st := c21GenState(r)
+	if r.Chance(50) {
+		l := c21GenList(r, 3)
+		n := r.Intn(4)
+		idx := make([]int, n)
+		for i := range idx {
+			idx[i] = r.Intn(6)
+		}
+		st.vars["x"] = c21Var{kind: 'i', list: l, idx: idx}
+		if r.Chance(15) {
+			st.vars["x"] = c21Var{kind: 'i', nilList: true}
+		}
+	}
+	pe := &syntax.ParamExp{Param: &syntax.Lit{Value: r.Pick([]string{"x", "x", "x", "y", "@", "*", "r", "1"})}}
+	switch r.Intn(6) {
+	case 0, 1:
+		pe.Index = c21LitWord(r.Pick([]string{"@", "*"}))
+	case 2:
+		pe.Index = c21LitWord(r.Pick([]string{"0", "1", "2", "5", "k", "a"}))
+	case 3:
+		pe.Index = &syntax.UnaryArithm{Op: syntax.Minus, X: c21LitWord(r.Pick([]string{"1", "2", "9"}))}
+	}
+	pe.Excl = r.Chance(25)
+	pe.Length = r.Chance(20)
+	if r.Chance(10) {
+		pe.Names = syntax.NamesPrefix
+		if r.Bool() {
+			pe.Names = syntax.NamesPrefixWords
+		}
+	}
+	switch r.Intn(5) {
+	case 0:
+		pe.Slice = &syntax.Slice{}
+		if r.Chance(80) {
+			n := r.Intn(7) - 3
+			if n < 0 {
+				pe.Slice.Offset = &syntax.UnaryArithm{Op: syntax.Minus, X: c21LitWord(strconv.Itoa(-n))}
+			} else {
+				pe.Slice.Offset = c21LitWord(strconv.Itoa(n))
+			}
+		}
+		if r.Chance(50) {
+			n := r.Intn(7) - 3
+			if n < 0 {
+				pe.Slice.Length = &syntax.UnaryArithm{Op: syntax.Minus, X: c21LitWord(strconv.Itoa(-n))}
+			} else {
+				pe.Slice.Length = c21LitWord(strconv.Itoa(n))
+			}
+		}
+	case 1:
+		pe.Repl = &syntax.Replace{All: r.Bool(), Orig: c21LitWord(c21GenPat(r)), With: c21LitWord(r.Pick([]string{"X", "", "XY"}))}
+		if pe.Repl.Orig.Parts[0].(*syntax.Lit).Value == "" {
+			pe.Repl.Orig = nil
+		}
+	case 2, 3:
+		ops := []syntax.ParExpOperator{syntax.AlternateUnset, syntax.AlternateUnsetOrNull, syntax.DefaultUnset, syntax.DefaultUnsetOrNull,
+			syntax.ErrorUnset, syntax.ErrorUnsetOrNull, syntax.AssignUnset, syntax.AssignUnsetOrNull,
+			syntax.RemSmallPrefix, syntax.RemLargePrefix, syntax.RemSmallSuffix, syntax.RemLargeSuffix,
+			syntax.UpperFirst, syntax.UpperAll, syntax.LowerFirst, syntax.LowerAll, syntax.OtherParamOps}
+		op := ops[r.Intn(len(ops))]
+		arg := c21GenPat(r)
+		if op == syntax.OtherParamOps {
+			arg = r.Pick([]string{"Q", "U", "L", "u", "a", "A", "P", "K", "k"})
+		}
+		pe.Exp = &syntax.Expansion{Op: op, Word: c21LitWord(arg)}
+	}
+	return c21Case{st: st, quoted: r.Bool(), nounset: r.Chance(5), ast: pe}
+}
+
 func c21GenCase(r *Rand) c21Case {
 	st := c21GenState(r)
 	return c21Case{st: st, src: c21GenForm(r, st), quoted: r.Chance(50), nounset: r.Chance(4)}
@@ -1131,6 +1218,13 @@ func c21GenCase(r *Rand) c21Case {
 
 func c21RunCase(c *Ctx, cs c21Case) (*c21PE, bool) {
 	w, d, perr := c21Parse(cs.src, cs.quoted)
+	if cs.ast != nil {
+		d, perr = c21Decode(cs.ast, "")
+		w = &syntax.Word{Parts: []syntax.WordPart{cs.ast}}
+		if cs.quoted {
+			w = &syntax.Word{Parts: []syntax.WordPart{&syntax.DblQuoted{Parts: []syntax.WordPart{cs.ast}}}}
+		}
+	}
 	if perr != "" {
 		c.Case("parse\x00"+cs.src, false, "skip:"+perr)
 		return nil, false
@@ -1165,6 +1259,11 @@ func c21RunCase(c *Ctx, cs c21Case) (*c21PE, bool) {
 		tags = append(tags, "res=err")
 	}
 	nontrivial := d.kind != 'N' || d.idxKind != '-' || d.excl || d.length
+	if cs.ast != nil {
+		tags = append(tags, "stream=ast")
+		c.Case("a\x00"+cs.witness()+args, nontrivial, tags...)
+		return d, true
+	}
 	c.Case("f\x00"+cs.witness(), nontrivial, tags...)
 	return d, true
 }
@@ -1434,6 +1533,10 @@ func c21(c *Ctx) {
 	for i := 0; i < c.N; i++ {
 		if i%3 == 2 {
 			c21Units(c, c.R)
+			continue
+		}
+		if i%10 == 4 {
+			c21RunCase(c, c21GenAst(c.R))
 			continue
 		}
 		c21RunCase(c, c21GenCase(c.R))
